@@ -15,7 +15,17 @@ for prop, cfg in sorted((k, v) for k, v in mod.PROPS.items() if k in _p.REGISTER
     cfg = dict(cfg)
     bdir = os.path.join(VERIF, "build", prop)
     os.makedirs(bdir, exist_ok=True)
-    out, msg = mod.build(prop, cfg, bdir)
+    out, msg = None, ""
+    for i, pc in enumerate(cfg.get("parts") or [None]):
+        c = dict(cfg)
+        if pc:
+            c.update(pc)
+        c.pop("parts", None)
+        pdir = bdir if pc is None else os.path.join(bdir, "part%d" % i)
+        os.makedirs(pdir, exist_ok=True)
+        out, msg = mod.build(prop, c, pdir)
+        if out is None:
+            break
     if out is None:
         print("prebuild %s FAILED\n%s" % (prop, msg))
         bad += 1
